@@ -482,7 +482,7 @@ class _Env:
                 )
 
         server = RpcServer(proto, impl)
-        app = make_wsgi_app(server, token_key=b"k" * 32, upload_url_provider=Provider(), max_request_bytes=10_000_000)
+        app = make_wsgi_app(server, token_key=b"k" * 32, upload_url_provider=Provider(), max_request_bytes=10_000_000, enable_landing_page=False, enable_describe_page=False)
         inner = httpx2.WSGITransport(app=app)
         self.sends: list[dict[str, Any]] = []
         self.script: dict[str, list[str]] = {}
